@@ -66,6 +66,13 @@ where
     fn get_metrics(&self) -> &WriterMetrics {
         &self.metrics
     }
+
+    /// Verification hook: `(written, bytes held by the inner buffer, capacity)`.
+    #[cfg(cadence_verif)]
+    #[doc(hidden)]
+    pub fn verif_state(&self) -> (usize, usize, usize) {
+        (self.written, self.inner.buffer().len(), self.capacity)
+    }
 }
 
 impl<T> Write for MultiLineWriter<T>
